@@ -789,8 +789,107 @@ async fn history(ctx: &Ctx, rng: &mut Rng, hid: usize, yields: bool) {
     }
 }
 
+/// Behaviour calls whose caller is in the middle of terminating when the behaviour answers it (the caller's handler
+/// has failed; the caller is parked at the exit-propagation hooks and still resolves in the registry), mixed with
+/// calls from a live caller. The behaviours must go on answering the live caller, exactly once per call.
+async fn dying_caller(ctx: &Ctx, rng: &mut Rng, hid: usize, yields: bool) {
+    ctx.beat(&format!("dying-caller/{}", hid));
+    let log: Arc<Log> = Arc::new(Log::default());
+    let mut node = Node::new(format!("dying{}@127.0.0.1", hid), "cookie");
+    if let Err(e) = node.start(0).await {
+        ctx.inconclusive(&format!("Node::start failed: {}", e));
+        return;
+    }
+    let (Some(x), Some(y)) = (spawn_recorder(&node, &log).await, spawn_recorder(&node, &log).await) else {
+        ctx.inconclusive("spawn failed");
+        return;
+    };
+    let server = node.spawn(GenServerProcess::new(Doubler, node.registry())).await.ok();
+    let manager = {
+        let mut m = GenEventManager::new(node.registry());
+        let _ = m.add_handler(Box::new(Tripler), OwnedTerm::atom("ok")).await;
+        node.spawn(m).await.ok()
+    };
+    let (Some(server), Some(manager)) = (server, manager) else {
+        ctx.inconclusive("spawn failed");
+        return;
+    };
+    let park = 2 + rng.below(10) as u32;
+    if yields {
+        edp_client::verif::set_callback(Some(Arc::new(move |nm: &'static str| -> u32 { if nm.starts_with("proc:exit:") { park } else { 0 } })));
+    }
+    let mut expected: Vec<(Vec<u32>, i64, &'static str)> = Vec::new();
+    let mut arg = 0i64;
+    let mut call = |from: &ExternalPid, to_server: bool, which: bool, node: &Node| {
+        arg += 1;
+        let r = node.make_reference();
+        let from_t = OwnedTerm::Tuple(vec![OwnedTerm::Pid(from.clone()), OwnedTerm::Reference(r.clone())]);
+        let (m, want) = if to_server {
+            (OwnedTerm::Tuple(vec![OwnedTerm::atom("$gen_call"), from_t, OwnedTerm::Integer(arg)]), arg * 2)
+        } else if which {
+            (OwnedTerm::Tuple(vec![OwnedTerm::atom("$gen_which_handlers"), from_t]), i64::MIN)
+        } else {
+            (OwnedTerm::Tuple(vec![OwnedTerm::atom("$gen_call"), from_t, OwnedTerm::atom("tripler"), OwnedTerm::Integer(arg)]), arg * 3)
+        };
+        (m, r.ids.clone(), want)
+    };
+    let _ = node.send(&x, OwnedTerm::atom("poison")).await;
+    let n_during = 6 + rng.below(10);
+    for c in 0..n_during {
+        for _ in 0..rng.below(3) {
+            tokio::task::yield_now().await;
+        }
+        let from_live = c % 3 == 2;
+        let to_server = rng.bool();
+        let (m, r, want) = call(if from_live { &y } else { &x }, to_server, rng.chance(1, 4), &node);
+        let target = if to_server { &server } else { &manager };
+        if node.send(target, m).await.is_ok() && from_live && want != i64::MIN {
+            expected.push((r, want, if to_server { "gen_server" } else { "gen_event" }));
+        }
+    }
+    let gone = wait_gone(&node, &x).await;
+    edp_client::verif::set_callback(None);
+    if !gone {
+        ctx.viol("C18:terminated-process-still-resolves", "a process whose handler failed is still in the registry after 2 s", json!({"history": hid}));
+    }
+    // afterwards: both behaviours still answer a live caller
+    for c in 0..4 {
+        let to_server = c % 2 == 0;
+        let (m, r, want) = call(&y, to_server, false, &node);
+        let target = if to_server { &server } else { &manager };
+        match node.send(target, m).await {
+            Ok(()) => expected.push((r, want, if to_server { "gen_server" } else { "gen_event" })),
+            Err(e) => ctx.viol(
+                &format!("C18:behaviour-gone-after-answering-a-dying-caller:{}", if to_server { "gen_server" } else { "gen_event" }),
+                "a behaviour process that answered a call from a caller in the middle of terminating no longer accepts messages",
+                json!({"history": hid, "error": e.to_string(), "parked_for": park, "yields": yields}),
+            ),
+        }
+    }
+    tokio::time::sleep(Duration::from_millis(40)).await;
+    let events: Vec<(u64, Ev)> = log.events.lock().unwrap().clone();
+    let yk = key(&y);
+    ctx.class(&format!("dying-caller/{}calls-during/{}", n_during, if yields { format!("parked-{}", park) } else { "mt".into() }));
+    for (r, want, kind) in &expected {
+        ctx.eval(1);
+        let replies: Vec<i64> = events.iter().filter_map(|(_, e)| match e {
+            Ev::Reply { by, reference, value } if *by == yk && reference == r => Some(*value),
+            _ => None,
+        }).collect();
+        if replies.len() != 1 || replies[0] != *want {
+            let cause = if replies.is_empty() { "missing" } else if replies.len() > 1 { "duplicate" } else { "wrong-value" };
+            ctx.viol(
+                &format!("C18:behaviour-reply:{}:{}:around-a-dying-caller", cause, kind),
+                "a call from a live caller, accepted by a behaviour that also answers a caller in the middle of terminating, was not answered exactly once",
+                json!({"history": hid, "replies": replies, "expected": want, "parked_for": park, "yields": yields, "calls_during_the_exit": n_during}),
+            );
+        }
+    }
+    ctx.count("calls_judged_around_a_dying_caller", expected.len() as u64);
+}
+
 pub fn run(ctx: &Ctx) {
-    ctx.rule("histories = 3..8 recording processes, 2..6 driver tasks, 20..100 operations each over 1..3 contended names: numbered sends by pid and by name, register/unregister/whereis (call/return stamped from one counter), link/unlink on task-owned pairs, monitor/demonitor, gen_server and gen_event calls; then 1..2 processes are made to fail; offline checkers: per (sender, receiver) in-order duplicate-free complete delivery, exactly-once exit/monitor notices for links/monitors in force before the failure, dead pids and their names no longer resolve and names are reusable, per-name linearizability (exact search), one reply per behaviour call; 2..6 tasks racing to register the same 150..1200 fresh names (each granted exactly once, resolving to the winner); on the multi-thread runtime additionally bursts of 400..3000 numbered messages from 1..3 senders to a process held busy behind a gate (around the mailbox capacity), handled exactly once and in each sender's order; multi-thread runtime and current-thread runtime with seeded yields at the exit-propagation hooks; evaluations = deliveries, notices, name operations and calls judged; distinct = distinct history configurations");
+    ctx.rule("histories = 3..8 recording processes, 2..6 driver tasks, 20..100 operations each over 1..3 contended names: numbered sends by pid and by name, register/unregister/whereis (call/return stamped from one counter), link/unlink on task-owned pairs, monitor/demonitor, gen_server and gen_event calls; then 1..2 processes are made to fail; offline checkers: per (sender, receiver) in-order duplicate-free complete delivery, exactly-once exit/monitor notices for links/monitors in force before the failure, dead pids and their names no longer resolve and names are reusable, per-name linearizability (exact search), one reply per behaviour call; behaviour calls whose caller is parked in the middle of terminating (still resolvable) mixed with calls from a live caller, which must all be answered; 2..6 tasks racing to register the same 150..1200 fresh names (each granted exactly once, resolving to the winner); on the multi-thread runtime additionally bursts of 400..3000 numbered messages from 1..3 senders to a process held busy behind a gate (around the mailbox capacity), handled exactly once and in each sender's order; multi-thread runtime and current-thread runtime with seeded yields at the exit-propagation hooks; evaluations = deliveries, notices, name operations and calls judged; distinct = distinct history configurations");
     ctx.assume("links/monitors are compared as of a quiescent barrier before the failing message is sent; messages accepted after a process was sent its failing message are not required to be handled");
     let mut rng = Rng::derive(ctx.seed, 18, 1);
     let n = ctx.pick(60usize, 8000usize);
@@ -803,6 +902,7 @@ pub fn run(ctx: &Ctx) {
                     break;
                 }
                 history(ctx, &mut rng, i, true).await;
+                dying_caller(ctx, &mut rng, 500_000 + i, true).await;
                 if i % 10 == 0 {
                     name_race(ctx, &mut rng, 400_000 + i).await;
                 }
@@ -818,6 +918,9 @@ pub fn run(ctx: &Ctx) {
                     break;
                 }
                 history(ctx, &mut rng, 100_000 + i, false).await;
+                if i % 3 == 0 {
+                    dying_caller(ctx, &mut rng, 600_000 + i, false).await;
+                }
                 if i % 6 == 0 {
                     burst(ctx, &mut rng, 200_000 + i).await;
                     name_race(ctx, &mut rng, 300_000 + i).await;
